@@ -22,6 +22,7 @@ fn report(spec: &QueueSpec, run: queue::QueueRun, index: u64, want_sample: bool)
     r.count("probe.try_push_would_block_with_room", run.stats.would_block_with_room);
     r.count("ill_formed_deadlocks", run.stats.ill_formed_deadlock as u64);
     r.count("structured_open_deadlocks", run.stats.structured_open_deadlock as u64);
+    r.count("histories_checked_by_hook_free_linearizability_search", run.stats.lin_checked as u64);
     r.count("steps_total", run.stats.steps);
     r.count("preemptions", run.stats.preemptions);
     r.count(&format!("sched.{}", spec.sched.name()), 1);
